@@ -229,6 +229,9 @@ MORE = {
     'C05': ' Search also judges the same conditions under `It is prohibited / required that` on all traces (polarity family) and prefixed clauses in '
            'copied propositions; F41 (negated condition under `required`) repaired by a fix: commit.',
     'C07': ' Renamings include spellings with inner underscores and duration clauses; F36 repaired by a fix: commit.',
+    'C01': ' Constraints over a conjunction of clauses are judged against a brute-force reading (search only); F46 (a requirement over a conjunction '
+           'is printed as one constraint) is a known finding.',
+    'C08': ' Aggregates over an attribute name shared by two concepts are searched; F47 is a known finding.',
     'C09': ' A noun grid covers singular / plural over every plural morphology.',
     'C10': ' F44 (a constant declared later changes an earlier rule) is a known finding.',
     'C11': ' Headers are also inserted between all ordered pairs of a sentence pool and into wide-generator specifications.',
